@@ -233,11 +233,19 @@ def run_playback(scratch, build, names, logdir, tag):
     reproduced = False
     for profile in ("dev", "release"):
         cmd = ["cargo", "kani", "playback", "-Z", "concrete-playback", "-p", b["package"]] + feats
-        if profile == "release":
-            cmd.append("--release")
+        if profile == "release" and reproduced:
+            break  # reproduced in the profile Kani models: that is a violation already
         cmd += ["--lib", "--", "--test-threads", "1", "kani_concrete_playback"]
         env = dict(lrv.ENV)
         env["CARGO_TARGET_DIR"] = os.path.join(scratch, "target-playback")
+        if profile == "release":
+            # `cargo kani playback` has no --release: give the dev/test profile the release
+            # profile's semantics (optimised, overflow wraps, debug assertions off) instead
+            env["CARGO_TARGET_DIR"] = os.path.join(scratch, "target-playback-rel")
+            for k in ("DEV", "TEST"):
+                env["CARGO_PROFILE_%s_OPT_LEVEL" % k] = "3"
+                env["CARGO_PROFILE_%s_OVERFLOW_CHECKS" % k] = "false"
+                env["CARGO_PROFILE_%s_DEBUG_ASSERTIONS" % k] = "false"
         if b.get("rustflags"):
             env["RUSTFLAGS"] = b["rustflags"]
         log = os.path.join(logdir, "playback-run-%s-%s.log" % (tag, profile))
@@ -400,6 +408,16 @@ def main():
                         # when that did not reproduce: Kani's own unsliced playback
                         rep, out, rpath, tests, glog = False, "", None, [], None
                         is_gen = os.path.basename(h.file).startswith("c13_") and h.file.endswith("_gen.rs")
+                        if n_viol >= 2:
+                            # two counterexamples of this run have already been reproduced
+                            # natively: the verdict is settled, further replays (minutes each)
+                            # are skipped and the harness is listed as failing unreplayed
+                            entry["verdict"] = "violated-not-replayed"
+                            entry["reason"] += " | replay skipped: two counterexamples of this run already reproduced natively"
+                            lines.append("  harness %s also fails (solver verdict, replay skipped): %s" % (h.uid, "; ".join(
+                                "%s @ %s" % (c["desc"], c["loc"]) for c in unknown)[:600]))
+                            hres.append(entry)
+                            continue
                         for sliced in ([False] if is_gen else [True, False]):
                             tests, glog = generate_playback(w, h, tier, sliced)
                             if not tests:
